@@ -29,6 +29,7 @@ N == 4    \* abstract size of a flat collection / a row (the replay scales it up
 R == 3    \* rows of a nested collection
 
 Stmts == {[op |-> "flat", v |-> x] : x \in Vars} \cup {[op |-> "nested", v |-> x] : x \in Vars}
+         \cup {[op |-> "nestedd", v |-> "x"]}
          \cup {[op |-> "alias", v |-> "y", w |-> "x"], [op |-> "alias", v |-> "x", w |-> "y"]}
          \cup {[op |-> f, v |-> x] : f \in Forms, x \in Vars}
 
@@ -38,7 +39,7 @@ Init == heap = <<>> /\ vars = [v \in Vars |-> 0] /\ hist = <<>> /\ phase = "pick
 Enabled(s) ==
     CASE s.op \in {"flat", "nested"} -> TRUE
       [] s.op = "alias" -> vars[s.w] # 0
-      [] s.op = "set2" -> IsNested(heap, vars[s.v])
+      [] s.op \in {"set2", "opassign2"} -> IsNested(heap, vars[s.v])
       [] s.op = "pop" -> vars[s.v] # 0
       [] OTHER -> vars[s.v] # 0
 
@@ -51,17 +52,18 @@ Pick == /\ phase = "pick" /\ Len(hist) < Depth
 PathShared(s) ==
     LET p == vars[s.v]
         top == IF Rc(heap, vars, <<>>, p) > 1 THEN heap[p].n ELSE 0
-        row == IF s.op = "set2" /\ (Rc(heap, vars, <<>>, heap[p].kids[1]) > 1 \/ Rc(heap, vars, <<>>, p) > 1)
+        row == IF s.op \in {"set2", "opassign2"} /\ (Rc(heap, vars, <<>>, heap[p].kids[1]) > 1 \/ Rc(heap, vars, <<>>, p) > 1)
                THEN heap[heap[p].kids[1]].n ELSE 0
     IN top + row
 PathUnique(s) ==
     LET p == vars[s.v]
-    IN Rc(heap, vars, <<>>, p) = 1 /\ (s.op = "set2" => Rc(heap, vars, <<>>, heap[p].kids[1]) = 1)
+    IN Rc(heap, vars, <<>>, p) = 1 /\ (s.op \in {"set2", "opassign2"} => Rc(heap, vars, <<>>, heap[p].kids[1]) = 1)
 
 Run == /\ phase = "run"
        /\ LET s == pick
               r == CASE s.op = "flat" -> InitFlat(heap, vars, s.v, N)
                      [] s.op = "nested" -> InitNested(heap, vars, s.v, N, R)
+                     [] s.op = "nestedd" -> InitNestedDistinct(heap, vars, s.v, N, R)
                      [] s.op = "alias" -> Alias(heap, vars, s.v, s.w)
                      [] OTHER -> Apply(s.op, heap, vars, s.v)
               ismut == s.op \in Forms
@@ -82,5 +84,5 @@ RepeatIsFree ==
 RcSane ==
     /\ \A p \in 1..Len(heap) : heap[p].live => Rc(heap, vars, <<>>, p) > 0
     /\ \A v \in Vars : vars[v] # 0 => heap[vars[v]].live
-    /\ \A p \in 1..Len(heap) : heap[p].live => \A i \in 1..Len(heap[p].kids) : heap[heap[p].kids[i]].live
+    /\ \A p \in 1..Len(heap) : heap[p].live => \A i \in 1..Len(heap[p].kids) : heap[p].kids[i] = 0 \/ heap[heap[p].kids[i]].live
 =============================================================================
